@@ -68,6 +68,11 @@ macro_rules! deftag {
         impl SplDiscriminate for $B {
             const SPL_DISCRIMINATOR: ArrayDiscriminator = ArrayDiscriminator::new(TAGS[$k]);
         }
+        impl $B {
+            pub fn new(data: Vec<u8>) -> Self {
+                $B { data }
+            }
+        }
         /// hand-written packer: checks the slot first, writes nothing on failure
         #[derive(Clone, Debug, PartialEq)]
         pub struct $H(pub Vec<u8>);
